@@ -476,13 +476,15 @@ class EriOrbenergy:
                 cancelled_result += pref * self.eri / multiply(new_denom)
                 # check if we have something left to cancel
                 if num.sympy.is_number:
-                    if num.sympy is not S.Zero:
-                        cancelled_result += \
-                            pref * self.eri * num / multiply(denom)
                     break
             # return just the term if it was not possible to successfully
             # cancel any bracket
-            return self.expr if cancelled_result is None else cancelled_result
+            if cancelled_result is None:
+                return self.expr
+            # add the part of the numerator that could not be cancelled
+            if num.sympy is not S.Zero:
+                cancelled_result += pref * self.eri * num / multiply(denom)
+            return cancelled_result
 
         # fix the sign of the orbital energies in numerator and denominator:
         # occupied orb energies are added, while virtual ones are subtracted
